@@ -275,7 +275,7 @@ def run_e2e(case, stats, viol):
         lnames = [vworld.full_layer_name(spec, l) for l in tbl]
 
         def pick(pool):
-            if rng.random() < 0.06:
+            if rng.random() < 0.12:
                 # the empty pattern matches every name
                 return rng.choice(['', '', '!'])
             s = rng.choice(pool)
